@@ -32,6 +32,11 @@ def run(chk):
     for n in (6, 7, 8, 9) if thorough else (6, 7):
         cases.append({"V": [10 + i for i in range(n)], "E": [[10 + i, 10 + (i + 1) % n] for i in range(n)], "root": 10 + n // 2, "name": "cyc%d" % n})
     cases.append({"V": [3, 5, 8, 13, 21], "E": [list(e) for e in itertools.combinations([3, 5, 8, 13, 21], 2)], "root": 8, "name": "k5-relabelled"})
+    # vertex ids far from 0 (cover labels are arbitrary vertex ids of a large network): every third case relabelled
+    for i, c in enumerate(cases):
+        if i % 3 == 2:
+            f = (lambda v: 1000 + 7 * v) if i % 2 else (lambda v: 70000 + v)
+            cases[i] = dict(c, V=[f(v) for v in c["V"]], E=[[f(x), f(y)] for x, y in c["E"]], root=f(c["root"]))
     for i, c in enumerate(cases):
         # a fresh evaluator per case; every second case reuses the SAME motif name on its own evaluator (names only have
         # to be distinct on one evaluator: two evaluators - e.g. two message-passing objects - may both call a motif "0-7")
